@@ -768,3 +768,36 @@ Definition init_st (argv0 : bytes) (args : list bytes) (stdin_recs : list record
 Definition script_exec (e : env) (p : sprog) (fuel : nat) (args : list bytes) (stdin_recs : list record) : fin (list stmt) :=
   exec_all (list stmt) (sstep p) (senter p) e fuel (map rule_of (sp_rules p))
            (match sp_end p with [] => false | _ => true end) [] (init_st [103;111;97;119;107] args stdin_recs).
+
+(* ---------- histories: several Execute calls on one Interpreter (interp/newexecute.go) ----------
+   Execute = resetCore; setExecuteConfig; executeAll.  resetCore and setExecuteConfig give the input
+   subsystem its initial state again (scanner nil, streams closed and forgotten, NR = FNR = 0,
+   FILENAME and $0 empty, filenameIndex = 1, hadFiles = false, exit status 0, ARGV/ARGC from the new
+   Config); the in-range flags are a local of execActions.  So every run starts from [init_st] and
+   from all-false flags; what can survive is the program's own state [U] (variables are not reset
+   unless ResetVars is called: [reset]). *)
+
+Definition run_in : Type := (env * list bytes * list record)%type.   (* files/commands, operands, stdin of one Execute *)
+
+Section History.
+  Variable U : Type.
+  Variable step : U -> st -> req * U.
+  Variable enter : blk -> U -> U.
+  Variable a0 : bytes.
+
+  Definition carry (u : U) (x : fin U) : U :=
+    match x with FOk u' _ => u' | FErr u' _ => u' | _ => u end.
+
+  Fixpoint exec_history (reset : bool) (fuel : nat) (rules : list rule) (has_end : bool) (u0 u : U)
+                        (runs : list run_in) : list (fin U) :=
+    match runs with
+    | [] => []
+    | (e, args, sin) :: rest =>
+        let x := exec_all U step enter e fuel rules has_end u (init_st a0 args sin) in
+        x :: exec_history reset fuel rules has_end u0 (if reset then u0 else carry u x) rest
+    end.
+End History.
+
+(* what the correspondence check asks the model for a history of one script *)
+Definition script_history (p : sprog) (fuel : nat) (runs : list run_in) : list (fin (list stmt)) :=
+  map (fun r : run_in => let '(e, args, sin) := r in script_exec e p fuel args sin) runs.
